@@ -39,6 +39,13 @@ package dump_test
 //   6-blob file with 4 and 6 connections = all 6! orders x 2^6 answers, a
 //   7-blob file with 3).
 //
+//   The same single-file and tree dumps are repeated with the dumper's blob
+//   cache shrunk to two blobs (add-only hook VerifSetCacheSize; the real size
+//   is 64 MiB, reached with many connections and multi-MiB blobs): blobs are
+//   evicted while they still wait for the writer.  The gated loader places the
+//   plaintext into the caller's buffer when it is large enough, as
+//   Repository.LoadBlob does.
+//
 // Oracle: the archive is parsed with archive/tar resp. archive/zip and compared
 // with the model: entries in tree order (depth first, names in tree order),
 // exactly one per file / directory / symlink, none for other node types; name,
@@ -92,6 +99,9 @@ type verifC45Node struct {
 	id restic.ID // subtree id (dirs), set by the forge
 }
 
+// verifC45SmallCache: room for two of the small blobs (size + 96 bytes overhead each), not for three.
+const verifC45SmallCache = 300
+
 var verifC45Pool = [][]byte{
 	[]byte("0123456789"),
 	oracle.LCG(4501, 1000),
@@ -120,7 +130,7 @@ func verifC45Sorted(kids []*verifC45Node) []*verifC45Node {
 // verifC45Entry is one expected archive entry.
 type verifC45Entry struct {
 	name    string
-	typ     byte // 'f', 'd', 'l'
+	typ     byte  // 'f', 'd', 'l'
 	bits    int64 // unix permission bits incl. 04000/02000/01000
 	link    string
 	content []byte
@@ -538,7 +548,7 @@ func (g *verifC45Gated) LookupBlobSize(h restic.BlobHandle) (uint, bool) {
 	b, ok := g.blobs[h]
 	return uint(len(b)), ok
 }
-func (g *verifC45Gated) LoadBlob(ctx context.Context, h restic.BlobHandle, _ []byte) ([]byte, error) {
+func (g *verifC45Gated) LoadBlob(ctx context.Context, h restic.BlobHandle, buf []byte) ([]byte, error) {
 	if err := ctx.Err(); err != nil {
 		return nil, err
 	}
@@ -563,6 +573,12 @@ func (g *verifC45Gated) LoadBlob(ctx context.Context, h restic.BlobHandle, _ []b
 	switch a {
 	case 0:
 		g.loads = append(g.loads, lab)
+		// like Repository.LoadBlob: the plaintext is placed into the caller's buffer if it is large enough
+		if cap(buf) >= len(b) && buf != nil {
+			buf = buf[:len(b)]
+			copy(buf, b)
+			return buf, nil
+		}
 		return append([]byte(nil), b...), nil
 	case 1:
 		g.failed = append(g.failed, lab)
@@ -756,18 +772,22 @@ func TestVerif_C45(t *testing.T) {
 		format string // "" = single file
 		conns  uint
 		nblobs int // single file: number of distinct blobs
+		cache  int // > 0: the dumper's blob cache holds only this many bytes (evictions while blobs wait for the writer)
 	}
 	scens := []scen{
-		{"sched|tar|c2", "tar", 2, 0}, {"sched|zip|c2", "zip", 2, 0},
-		{"sched|tar|c4", "tar", 4, 0}, {"sched|zip|c4", "zip", 4, 0},
-		{"file5|c4", "", 4, 5}, {"file5|c2", "", 2, 5},
+		{"sched|tar|c2", "tar", 2, 0, 0}, {"sched|zip|c2", "zip", 2, 0, 0},
+		{"sched|tar|c4", "tar", 4, 0, 0}, {"sched|zip|c4", "zip", 4, 0, 0},
+		{"file5|c4", "", 4, 5, 0}, {"file5|c2", "", 2, 5, 0},
+		// a cache with room for two of the pool's blobs: every further blob evicts one that may still be queued
+		{"file5|c4|small-cache", "", 4, 5, verifC45SmallCache}, {"file5|c3|small-cache", "", 3, 5, verifC45SmallCache},
 	}
 	if r.Thorough() {
 		scens = append(scens,
-			scen{"sched|tar|c1", "tar", 1, 0}, scen{"sched|zip|c1", "zip", 1, 0},
-			scen{"sched|tar|c3", "tar", 3, 0}, scen{"sched|zip|c3", "zip", 3, 0},
-			scen{"sched|tar|c6", "tar", 6, 0}, scen{"sched|zip|c6", "zip", 6, 0},
-			scen{"file5|c1", "", 1, 5}, scen{"file5|c3", "", 3, 5}, scen{"file6|c4", "", 4, 6}, scen{"file6|c6", "", 6, 6}, scen{"file7|c3", "", 3, 7})
+			scen{"sched|tar|c1", "tar", 1, 0, 0}, scen{"sched|zip|c1", "zip", 1, 0, 0},
+			scen{"sched|tar|c3", "tar", 3, 0, 0}, scen{"sched|zip|c3", "zip", 3, 0, 0},
+			scen{"sched|tar|c6", "tar", 6, 0, 0}, scen{"sched|zip|c6", "zip", 6, 0, 0},
+			scen{"sched|tar|c4|small-cache", "tar", 4, 0, verifC45SmallCache}, scen{"file6|c4|small-cache", "", 4, 6, verifC45SmallCache},
+			scen{"file5|c1", "", 1, 5, 0}, scen{"file5|c3", "", 3, 5, 0}, scen{"file6|c4", "", 4, 6, 0}, scen{"file6|c6", "", 6, 6, 0}, scen{"file7|c3", "", 3, 7, 0})
 	}
 	wantMixed := verifC45Expected(mixed.kids, "/")
 	for _, s := range scens {
@@ -787,7 +807,11 @@ func TestVerif_C45(t *testing.T) {
 						for _, i := range file5.blobs {
 							node.Content = append(node.Content, restic.Hash(verifC45Pool[i]))
 						}
-						st.err = dump.New("tar", st.g, &st.buf).WriteNode(x.Ctx, node)
+						d := dump.New("tar", st.g, &st.buf)
+						if s.cache > 0 {
+							dump.VerifSetCacheSize(d, s.cache)
+						}
+						st.err = d.WriteNode(x.Ctx, node)
 						return
 					}
 					it, err := data.LoadTree(x.Ctx, st.g, mixed.id)
@@ -795,7 +819,11 @@ func TestVerif_C45(t *testing.T) {
 						st.err = err
 						return
 					}
-					st.err = dump.New(s.format, st.g, &st.buf).DumpTree(x.Ctx, it, "/")
+					d := dump.New(s.format, st.g, &st.buf)
+					if s.cache > 0 {
+						dump.VerifSetCacheSize(d, s.cache)
+					}
+					st.err = d.DumpTree(x.Ctx, it, "/")
 				})
 			},
 		}
